@@ -170,6 +170,8 @@ def _ccf_run(ctx, rng, case, refill):
             for k2 in rng.sample(keys, min(3, len(keys))):
                 ops.append(("add", k2))
         ops = ops[:48]
+        for _ in range(rng.choice([0, 1, 2, 3])):
+            ops.insert(rng.randint(len(keys), len(ops)), ("expand",))  # explicit expansions of a crowded table (some are refused)
     for _ in range(rng.randint(5, 16) if not refill else 0):
         r = rng.random()
         if r < 0.62:
